@@ -19,6 +19,7 @@ import (
 	"strings"
 
 	"github.com/apache/yunikorn-core/pkg/common/configs"
+	"github.com/apache/yunikorn-core/pkg/common/resources"
 	siCommon "github.com/apache/yunikorn-scheduler-interface/lib/go/common"
 	"go.yaml.in/yaml/v3"
 )
@@ -194,22 +195,49 @@ func (b *shimBook) observe(op map[string]interface{}, msgs []map[string]interfac
 // ---------------------------------------------------------------- configuration of the restarted core
 
 func tightenQueues(qs []configs.QueueConfig, isRoot bool) {
+	setMaxQueues(qs, isRoot, "1")
+}
+
+// setMaxQueues gives every queue below the root the maximum {cpu: v, mem: v}, no guarantee, one application, no limits
+func setMaxQueues(qs []configs.QueueConfig, isRoot bool, v string) {
 	for i := range qs {
 		q := &qs[i]
 		if !isRoot {
 			q.Resources.Guaranteed = nil
-			q.Resources.Max = map[string]string{"cpu": "1", "mem": "1"}
+			q.Resources.Max = map[string]string{"cpu": v, "mem": v}
 			q.MaxApplications = 1
 		}
 		q.Limits = nil
-		tightenQueues(q.Queues, false)
+		setMaxQueues(q.Queues, false, v)
 	}
+}
+
+// quotaPreemption switches quota preemption on for the partition and gives the queues below the root a quota preemption
+// delay: on the first-level queues (inherited by their children), or on the leaves only
+func quotaPreemption(rng *rand.Rand, part *configs.PartitionConfig) {
+	yes := true
+	part.Preemption.QuotaPreemptionEnabled = &yes
+	onLeaves := rng.Intn(3) == 0
+	var set func(qs []configs.QueueConfig, depth int)
+	set = func(qs []configs.QueueConfig, depth int) {
+		for i := range qs {
+			leaf := len(qs[i].Queues) == 0 && !qs[i].Parent
+			if (depth == 1 && !onLeaves) || (leaf && onLeaves && depth >= 1) {
+				if qs[i].Properties == nil {
+					qs[i].Properties = map[string]string{}
+				}
+				qs[i].Properties[configs.QuotaPreemptionDelay] = "1h"
+			}
+			set(qs[i].Queues, depth+1)
+		}
+	}
+	set(part.Queues, 0)
 }
 
 // configB derives the configuration the restarted core runs with. Returns the variant label and the text.
 func configB(rng *rand.Rand, confA string) (string, string) {
 	p := rng.Intn(100)
-	if p < 45 {
+	if p < 35 {
 		return "same", confA
 	}
 	sc := &configs.SchedulerConfig{}
@@ -220,11 +248,22 @@ func configB(rng *rand.Rand, confA string) (string, string) {
 	root := &part.Queues[0]
 	label := ""
 	switch {
-	case p < 65:
+	case p < 47:
 		// tighter quotas everywhere: queue maxima, application counts, a wildcard user limit
 		label = "tight"
 		tightenQueues(part.Queues, true)
 		root.Limits = []configs.Limit{{Limit: "tight", Users: []string{"*"}, MaxResources: map[string]string{"cpu": "1"}, MaxApplications: 1}}
+	case p < 57:
+		// quota preemption enabled with a delay on managed queues whose maximum the first replayed allocation exceeds:
+		// the unchecked increment (Queue.IncAllocatedResource) arms the quota preemption timer during the replay
+		label = "quota-tight"
+		tightenQueues(part.Queues, true)
+		quotaPreemption(rng, part)
+	case p < 66:
+		// … with maxima that are exceeded later: by a later replayed allocation, an RM placement or a resize afterwards
+		label = "quota-mid"
+		setMaxQueues(part.Queues, true, fmt.Sprint(3+rng.Intn(8)))
+		quotaPreemption(rng, part)
 	case p < 80:
 		// a queue (subtree) is gone; queues can still be created by the rule
 		label = "dropq"
@@ -277,6 +316,9 @@ type replayPlan struct {
 	force string // all | bound
 	drain bool   // nodes are registered draining and enabled after the replay (what the k8shim does)
 	gone  bool   // pods whose release the core announced are already gone (not replayed)
+	// askFirst: some bound pods are first replayed as outstanding asks and reported as bound later in the replay (a shim
+	// that learns about the binding while it replays): the "ask -> allocation" transition branch of UpdateAllocation
+	askFirst bool
 }
 
 func (b *shimBook) sortedBy(prefix string, keys []string) []string {
@@ -320,6 +362,15 @@ func (b *shimBook) items(rng *rand.Rand, plan replayPlan) (items []map[string]in
 		if a.node != "" {
 			op["kind"] = "alloc"
 			hasBound[a.app] = true
+			if plan.askFirst && rng.Intn(2) == 0 {
+				early := cloneOp(a.op)
+				early["op"] = "alloc"
+				early["node"] = ""
+				early["kind"] = "ask"
+				early["early"] = true
+				asks = append(asks, early)
+				op["kind"] = "bind"
+			}
 			allocs = append(allocs, op)
 		} else {
 			op["kind"] = "ask"
@@ -361,7 +412,16 @@ func (b *shimBook) items(rng *rand.Rand, plan replayPlan) (items []map[string]in
 	switch plan.order {
 	case "k8shim":
 		// nodes, applications, allocations, foreign pods, asks (each group in the order the shim first saw them)
-		items = append(append(append(append(append(items, nodes...), apps...), allocs...), foreign...), asks...)
+		items = append(append(items, nodes...), apps...)
+		late := []map[string]interface{}{}
+		for _, x := range asks {
+			if jsonBool(x["early"]) {
+				items = append(items, x)
+			} else {
+				late = append(late, x)
+			}
+		}
+		items = append(append(append(items, allocs...), foreign...), late...)
 	case "perapp":
 		// nodes first; then application by application with its allocations and asks, foreign pods in between
 		shuffle(nodes)
@@ -376,6 +436,7 @@ func (b *shimBook) items(rng *rand.Rand, plan replayPlan) (items []map[string]in
 				}
 			}
 			shuffle(mine)
+			askBeforeBind(mine)
 			items = append(items, a)
 			items = append(items, mine...)
 			if len(rest) > 0 && rng.Intn(2) == 0 {
@@ -390,16 +451,19 @@ func (b *shimBook) items(rng *rand.Rand, plan replayPlan) (items []map[string]in
 		all := append(append(append(append(append([]map[string]interface{}{}, nodes...), apps...), allocs...), foreign...), asks...)
 		shuffle(all)
 		if plan.order == "any" {
+			askBeforeBind(all)
 			items = all
 			break
 		}
-		doneN, doneA := map[string]bool{}, map[string]bool{}
+		doneN, doneA, doneK := map[string]bool{}, map[string]bool{}, map[string]bool{}
 		for len(all) > 0 {
 			progress := false
 			rest := all[:0:0]
 			for _, x := range all {
 				ok := true
 				switch x["kind"] {
+				case "bind":
+					ok = doneN[jsonStr(x["node"])] && doneA[jsonStr(x["app"])] && doneK[jsonStr(x["key"])]
 				case "alloc", "foreign":
 					ok = doneN[jsonStr(x["node"])] && (x["kind"] == "foreign" || doneA[jsonStr(x["app"])])
 				case "ask":
@@ -414,6 +478,8 @@ func (b *shimBook) items(rng *rand.Rand, plan replayPlan) (items []map[string]in
 						doneN[jsonStr(x["id"])] = true
 					case "app":
 						doneA[jsonStr(x["id"])] = true
+					case "ask":
+						doneK[jsonStr(x["key"])] = true
 					}
 				} else {
 					rest = append(rest, x)
@@ -435,6 +501,23 @@ func (b *shimBook) items(rng *rand.Rand, plan replayPlan) (items []map[string]in
 		}
 	}
 	return items, omitted
+}
+
+// askBeforeBind swaps a "bind" item with the ask of the same key when the shuffle put it first
+func askBeforeBind(l []map[string]interface{}) {
+	pos := map[string]int{}
+	for i, x := range l {
+		if x["kind"] == "bind" {
+			pos[jsonStr(x["key"])] = i
+		}
+	}
+	for i, x := range l {
+		if x["kind"] == "ask" && jsonBool(x["early"]) {
+			if j, ok := pos[jsonStr(x["key"])]; ok && j < i {
+				l[i], l[j] = l[j], l[i]
+			}
+		}
+	}
 }
 
 // ---------------------------------------------------------------- one history
@@ -501,6 +584,7 @@ func planOf(rng *rand.Rand) replayPlan {
 	}
 	p.drain = rng.Intn(100) < 40
 	p.gone = rng.Intn(100) < 25
+	p.askFirst = rng.Intn(100) < 40
 	return p
 }
 
@@ -511,7 +595,7 @@ func recoverB(c *Ctx, d *coreDrv, rc *recoverCase, book *shimBook, dumpA interfa
 	// core A is gone
 	d.s.cc.Stop()
 	line := map[string]interface{}{"c": d.id, "op": "reset", "config": rc.confA, "configB": rc.confB, "cfg": rc.cfgLabel, "deny": rc.deny, "hist": rc.hist,
-		"rseed": rc.rseed, "gen": rc.gen, "order": rc.plan.order, "force": rc.plan.force, "drain": rc.plan.drain, "gone": rc.plan.gone}
+		"rseed": rc.rseed, "gen": rc.gen, "order": rc.plan.order, "force": rc.plan.force, "drain": rc.plan.drain, "gone": rc.plan.gone, "askFirst": rc.plan.askFirst}
 	s, err := newCoreStack(rc.confB)
 	if err != nil {
 		d.s = nil
@@ -528,6 +612,7 @@ func recoverB(c *Ctx, d *coreDrv, rc *recoverCase, book *shimBook, dumpA interfa
 		op := norm(it)
 		delete(op, "kind")
 		delete(op, "forced")
+		delete(op, "early")
 		scratch := map[string]interface{}{}
 		func() {
 			defer func() {
@@ -622,8 +707,11 @@ func recoverStats(c *Ctx, dumpA interface{}, book *shimBook, items []map[string]
 	}
 	nb := 0
 	for _, it := range items {
-		if it["kind"] == "alloc" {
+		if it["kind"] == "alloc" || it["kind"] == "bind" {
 			nb++
+		}
+		if it["kind"] == "bind" {
+			seen["ask-then-bound"] = true
 		}
 	}
 	if nb > 0 {
@@ -671,30 +759,109 @@ func recoverPost(c *Ctx, d *coreDrv, book *shimBook, n int) {
 		}
 	}
 	s.seq = 9000
+	boundKeys := func(realOnly bool) []string {
+		keys := []string{}
+		for k := range s.bound {
+			if a := s.asks[k]; a != nil && (!realOnly || !a.ph) {
+				keys = append(keys, k)
+			}
+		}
+		return sortStrings(keys)
+	}
+	// outstanding asks from the shim's point of view. The real half of a placeholder replacement in flight is left alone:
+	// resizing / placing it is a full-stack situation of its own (C03 / C06), not a recovery matter
+	openKeys := func() []string {
+		keys := []string{}
+		for k, a := range s.asks {
+			if s.bound[k] != "" || a == nil {
+				continue
+			}
+			if app := d.s.part.GetApplication(a.app); app != nil {
+				if ask := app.GetAllocationAsk(k); ask != nil && !ask.IsAllocated() {
+					keys = append(keys, k)
+				}
+			}
+		}
+		return sortStrings(keys)
+	}
 	for j := 0; j < n; j++ {
 		apps := sortedKeys(s.apps)
+		nodes := sortedKeys(s.nodes)
 		p := c.pick(100)
 		switch {
-		case p < 60 || len(apps) == 0:
+		case p < 34 || len(apps) == 0:
 			emit(map[string]interface{}{"op": "schedule"})
-		case p < 82:
+		case p < 46:
 			app := s.pickFrom(apps)
 			key := s.newKey("z")
 			ask := &shimAsk{app: app, key: key, res: s.askRes()}
 			emit(map[string]interface{}{"op": "alloc", "app": app, "key": key, "res": encRes(ask.res), "ctime": s.seq, "prio": c.pick(3), "preemptOther": c.chance(0.5)})
 			s.asks[key] = ask
-		default:
-			keys := []string{}
-			for k := range s.bound {
-				if a := s.asks[k]; a != nil && !a.ph {
-					keys = append(keys, k)
+		case p < 60:
+			// the shim reports an outstanding ask as bound (it placed the pod itself / learned about the binding late):
+			// the "ask -> allocation" transition of UpdateAllocation, no quota and no capacity check
+			if keys := openKeys(); len(keys) > 0 && len(nodes) > 0 {
+				k := s.pickFrom(keys)
+				a := s.asks[k]
+				node := s.pickFrom(nodes)
+				c.stat("post:rm-placement")
+				emit(map[string]interface{}{"op": "alloc", "app": a.app, "key": k, "node": node, "res": encRes(a.res), "ph": a.ph, "tg": a.tg, "ctime": 1})
+				if d.s.part.GetApplication(a.app) != nil && d.s.part.GetApplication(a.app).GetAllocationAsk(k) != nil &&
+					d.s.part.GetApplication(a.app).GetAllocationAsk(k).IsAllocated() {
+					s.bound[k] = node
 				}
 			}
+		case p < 76:
+			// in-place resize of a bound allocation (up or down), sometimes of an outstanding ask
+			keys := boundKeys(false)
+			if c.chance(0.15) {
+				keys = openKeys()
+			}
 			if len(keys) > 0 {
-				k := s.pickFrom(sortStrings(keys))
+				k := s.pickFrom(keys)
+				a := s.asks[k]
+				nr := a.res.Clone()
+				if c.chance(0.5) {
+					c.stat("post:resize-up")
+					nr.Resources["cpu"] += resources.Quantity(1 + c.pick(3))
+					if c.chance(0.3) {
+						nr.Resources["mem"] += resources.Quantity(1 + c.pick(3))
+					}
+				} else {
+					c.stat("post:resize-down")
+					for t, v := range nr.Resources {
+						if v > 1 {
+							nr.Resources[t] = v - 1
+						}
+					}
+				}
+				emit(map[string]interface{}{"op": "alloc", "app": a.app, "key": k, "node": s.bound[k], "res": encRes(nr), "ph": a.ph, "tg": a.tg, "ctime": 1})
+				a.res = nr
+			}
+		case p < 90:
+			if keys := boundKeys(true); len(keys) > 0 {
+				k := s.pickFrom(keys)
+				c.stat("post:release")
 				emit(map[string]interface{}{"op": "release", "app": s.asks[k].app, "key": k, "type": "STOPPED_BY_RM"})
 				delete(s.asks, k)
 				delete(s.bound, k)
+			}
+		case p < 96:
+			// a node leaves: everything on it is released through the objects the node holds
+			if len(nodes) > 0 {
+				id := s.pickFrom(nodes)
+				c.stat("post:decommission")
+				emit(map[string]interface{}{"op": "node", "id": id, "action": "decommission"})
+				delete(s.nodes, id)
+				for k, nd := range s.foreign {
+					if nd == id {
+						delete(s.foreign, k)
+					}
+				}
+			}
+		default:
+			if len(nodes) > 0 {
+				emit(map[string]interface{}{"op": "node", "id": s.pickFrom(nodes), "action": []string{"drain", "undrain"}[c.pick(2)]})
 			}
 		}
 		confirmAll()
@@ -777,7 +944,7 @@ func runRecover(c *Ctx) {
 		rc.plan = planOf(c.rng)
 		rc.cfgLabel, rc.confB = configB(c.rng, rc.confA)
 		if recoverB(c, d, rc, book, dumpA) {
-			recoverPost(c, d, book, 4+c.pick(8))
+			recoverPost(c, d, book, 8+c.pick(14))
 		}
 	}
 }
@@ -788,7 +955,7 @@ func recoverReplayFile(c *Ctx, d *coreDrv) {
 	for _, in := range readReplay(replayFile) {
 		if jsonStr(in["op"]) == "reset" {
 			rc := &recoverCase{confA: jsonStr(in["config"]), confB: jsonStr(in["configB"]), cfgLabel: jsonStr(in["cfg"]), rseed: jsonInt(in["rseed"]), gen: jsonStr(in["gen"]),
-				plan: replayPlan{order: jsonStr(in["order"]), force: jsonStr(in["force"]), drain: jsonBool(in["drain"]), gone: jsonBool(in["gone"])}}
+				plan: replayPlan{order: jsonStr(in["order"]), force: jsonStr(in["force"]), drain: jsonBool(in["drain"]), gone: jsonBool(in["gone"]), askFirst: jsonBool(in["askFirst"])}}
 			deny := jsonStr(in["deny"])
 			hist, _ := in["hist"].([]interface{})
 			book := newShimBook()
